@@ -104,7 +104,11 @@ def _impl(tier, seed, search):
                 L.check('I*v:class', type(Mo) is SpatialMomentum, iinp, 'I * v is not a SpatialMomentum'); L.close('I*v', Mo.A, Iref @ acc, TOL, si * float(np.max(np.abs(acc))), dict(iinp, v=acc))
             L.raises('I*force', lambda: I * SpatialForce(acc), iinp, 'inertia * force must raise')
         # SE3 action
-        T = inputs.se3(g, 2); X = SE3(T, check=False); Ad = b.adjoint(T)
+        T = inputs.se3(g, 2); X = SE3(T, check=False)
+        # independent reference: Ad(T) = [[R, skew(t) R], [0, R]]  (never the library's own adjoint)
+        R_, t_ = T[:3, :3], T[:3, 3]
+        Sk = np.array([[0, -t_[2], t_[1]], [t_[2], 0, -t_[0]], [-t_[1], t_[0], 0]])
+        Ad = np.block([[R_, Sk @ R_], [np.zeros((3, 3)), R_]])
         x = v6(); sx = float(np.max(np.abs(x))) * max(1.0, geom.tmag(T))
         for cls in (SpatialVelocity, SpatialAcceleration):
             ok, r = L.noraise('SE3*motion', lambda: X * cls(x), dict(T=T, x=x, cls=cls.__name__), f'SE3 * {cls.__name__}')
